@@ -184,18 +184,20 @@ def find_func(tree: ast.AST, name: str) -> ast.FunctionDef:
     raise TranslateError(f"function {name} not found")
 
 
-def op_chain(stmts: list[ast.stmt], subject: str) -> dict[str, list[ast.stmt]]:
-    """Find the `if <subject>.op == "x": ... elif ...` chain in stmts; return op -> body."""
+def op_chain(stmts: list[ast.stmt], subject: str, bare: bool = False) -> dict[str, list[ast.stmt]]:
+    """Find the `if <subject>.op == "x": ... elif ...` chain in stmts; return op -> body.
+    With bare=True the tested term is `<subject>` itself (e.g. a local `op`)."""
+    lhs = subject if bare else f"{subject}.op"
     for st in stmts:
         if isinstance(st, ast.If):
             t = st.test
-            if (isinstance(t, ast.Compare) and ast.unparse(t.left) == f"{subject}.op"
+            if (isinstance(t, ast.Compare) and ast.unparse(t.left) == lhs
                     and isinstance(t.comparators[0], ast.Constant)):
                 out: dict[str, list[ast.stmt]] = {}
                 cur: ast.stmt | None = st
                 while isinstance(cur, ast.If):
                     t = cur.test
-                    if not (isinstance(t, ast.Compare) and ast.unparse(t.left) == f"{subject}.op"):
+                    if not (isinstance(t, ast.Compare) and ast.unparse(t.left) == lhs):
                         raise TranslateError(f"unexpected test in operator chain at line {cur.lineno}")
                     key = t.comparators[0].value
                     if key in out:
@@ -204,8 +206,10 @@ def op_chain(stmts: list[ast.stmt], subject: str) -> dict[str, list[ast.stmt]]:
                     if len(cur.orelse) == 1 and isinstance(cur.orelse[0], ast.If):
                         cur = cur.orelse[0]
                     else:
-                        # final else must be a raise
-                        if cur.orelse and not all(isinstance(s, ast.Raise) for s in cur.orelse):
+                        # final else must be a raise (or `return None` = "fall back to autodiff")
+                        if cur.orelse and not all(isinstance(s, ast.Raise) or
+                                                  (isinstance(s, ast.Return) and ast.unparse(s) == "return None")
+                                                  for s in cur.orelse):
                             raise TranslateError(f"operator chain ends in non-raise else at line {cur.lineno}")
                         cur = None
                 return out
@@ -250,6 +254,60 @@ def gen_rules(fn: ast.FunctionDef, subject: str, suffix: str) -> str:
     extra = set(chain) - set(UNOPS)
     if extra:
         raise TranslateError(f"unary operators outside the model: {sorted(extra)}")
+    return "\n".join(out) + "\n"
+
+
+VOPS = ["sin", "cos", "tan", "exp", "log", "abs", "sqrt", "sinh", "cosh", "tanh"]
+
+
+def find_if_chain_stmts(fn: ast.AST, lhs: str) -> list[ast.stmt]:
+    """the statement list that directly contains the `if <lhs> == "...":` chain"""
+    for n in ast.walk(fn):
+        for field in ("body", "orelse"):
+            stmts = getattr(n, field, None)
+            if isinstance(stmts, list):
+                for st in stmts:
+                    if (isinstance(st, ast.If) and isinstance(st.test, ast.Compare)
+                            and ast.unparse(st.test.left) == lhs and isinstance(st.test.comparators[0], ast.Constant)):
+                        return stmts
+    raise TranslateError(f"no chain on {lhs}")
+
+
+def gen_unsum_tables(ad: ast.AST, vec: ast.AST) -> str:
+    """per-operator derivative tables of gradient_vector_unary_sum (autodiff.py) and of
+    VectorUnarySum.jacobian_row (vectors.py): op -> Expr in the element variable `x`"""
+    out = []
+    # (1) registered gradient rule: chain on the local `op`, results are `return <expr>`
+    fn = find_func(ad, "gradient_vector_unary_sum")
+    chain = op_chain(find_if_chain_stmts(fn, "op"), "op", bare=True)
+    env = {"var": "x"}
+    tr = RuleTranslator(env)
+    out.append("def unSumDeriv (op : VOp) (x : Expr) : Expr :=\n  match op with")
+    for o in VOPS:
+        out.append(f"  | .{o} => " + (tr.block(chain[o], env) if o in chain else "unsupportedRule"))
+    extra = set(chain) - set(VOPS)
+    if extra:
+        raise TranslateError(f"gradient_vector_unary_sum: operators outside the model: {sorted(extra)}")
+    # (2) VectorUnarySum.jacobian_row: chain on self.op, results are `result.append(<expr>)`
+    cls = next(n for n in ast.walk(vec) if isinstance(n, ast.ClassDef) and n.name == "VectorUnarySum")
+    jr = next(n for n in cls.body if isinstance(n, ast.FunctionDef) and n.name == "jacobian_row")
+    chain = op_chain(find_if_chain_stmts(jr, "self.op"), "self")
+    out.append("\ndef unSumJacRow (op : VOp) (x : Expr) : Expr :=\n  match op with")
+    for o in VOPS:
+        if o in chain:
+            body = []
+            for st in chain[o]:
+                if (isinstance(st, ast.Expr) and isinstance(st.value, ast.Call)
+                        and ast.unparse(st.value.func) == "result.append"):
+                    body.append(ast.Return(value=st.value.args[0], lineno=st.lineno))
+                else:
+                    body.append(st)
+            out.append(f"  | .{o} => " + tr.block(body, env))
+        else:
+            out.append(f"  | .{o} => unsupportedRule")
+    extra = set(chain) - set(VOPS)
+    if extra:
+        raise TranslateError(f"VectorUnarySum.jacobian_row: operators outside the model: {sorted(extra)}")
     return "\n".join(out) + "\n"
 
 
@@ -391,6 +449,8 @@ def main(repo: str, outdir: str) -> int:
     rules += gen_simplifiers(ad) + "\n"
     rules += "/-! rules of `_gradient_cached` -/\n" + gen_rules(find_func(ad, "_gradient_cached"), "expr", "") + "\n"
     rules += "/-! rules of `_gradient_iterative` -/\n" + gen_rules(find_func(ad, "_gradient_iterative"), "current", "Iter") + "\n"
+    vec = ast.parse(open(os.path.join(repo, "src/optyx/core/vectors.py")).read())
+    rules += "/-! per-operator tables of the vectorised unary sums -/\n" + gen_unsum_tables(ad, vec) + "\n"
     rules += "end Optyx.Generated\n"
     tables = HEADER + "namespace Optyx.Generated\n\n" + gen_tables(repo) + "\nend Optyx.Generated\n"
     changed = False
